@@ -125,11 +125,13 @@ def raise (f : Finder) (s : St) (code : Int) : Outcome :=
 /-- `take_last_error_address`: clears the code first, then takes the address -/
 def takeErr (s : St) : St × Option Nat := ({ s with errCode := none, errAddr := none }, s.errAddr)
 
-/-- the three RESUME instructions: `target` computes the address from the error address -/
-def resumeWith (f : Finder) (s : St) (target : Nat → Option Nat) : Outcome :=
+/-- the three RESUME instructions: `target` computes the address from the error address;
+`leave` = RESUME label: the label lives at the module level, the procedures in progress are left
+(`context.unwind_to_global()`, `return_address_stack.clear()`) -/
+def resumeWith (f : Finder) (s : St) (target : Nat → Option Nat) (leave : Bool := false) : Outcome :=
   match takeErr s with
   | (s', some a) => match target a with
-    | some n => .cont { s' with pc := n, hctx := s'.hctx - 1 }
+    | some n => .cont { s' with pc := n, hctx := s'.hctx - 1, ret := if leave then [] else s'.ret }
     | none => .stuck
   | (s', none) => raise f s' 20
 
@@ -159,7 +161,7 @@ def stepInstr (f : Finder) (i : Instr) (ev : Ev) (s : St) : Outcome :=
   | .onErrorGoToZero => .cont { s with handler := .none, pc := s.pc + 1 }
   | .resume => resumeWith f s f.current
   | .resumeNext => resumeWith f s f.next
-  | .resumeLabel t => resumeWith f s (fun _ => tgt t)
+  | .resumeLabel t => resumeWith f s (fun _ => tgt t) true
   | .halt => .halted s
   | .pushRet a => .cont { s with ret := a :: s.ret, pc := s.pc + 1 }
   | .popRet => match s.ret with
